@@ -244,6 +244,21 @@ type tStruct struct {
 	K string          `json:"key"`
 }
 
+// captures the raw text it is handed (json.Unmarshaler): the decoder delimits and validates the value with skip_one
+type capT struct{ raw string }
+
+func (c *capT) UnmarshalJSON(b []byte) error { c.raw = string(b); return nil }
+
+// embedded runs the decoder on a document that carries `in` at a position the decoder skips or captures;
+// result "<class>:<rlx of the wrapped document>:<encoding/json.Valid of the wrapped document>:<nesting depth>"
+func embedded(wrapped string, dst interface{}) string {
+	return guard(func() string {
+		cls := errClass(sonic.UnmarshalString(wrapped, dst))
+		ok, d := rlxDoc(wrapped)
+		return cls + ":" + b2s(ok) + ":" + b2s(json.Valid([]byte(wrapped))) + ":" + fmt.Sprint(d)
+	})
+}
+
 func errClass(err error) string {
 	if err == nil {
 		return "ok"
@@ -439,6 +454,15 @@ func runCase(id, kind, in string, heavy bool) []string {
 	add("uifstd", guard(func() string { var v interface{}; return errClass(sonic.ConfigStd.UnmarshalFromString(in, &v)) }))
 	add("urawstd", guard(func() string { var v json.RawMessage; return errClass(sonic.ConfigStd.UnmarshalFromString(in, &v)) }))
 	add("ubytes", guard(func() string { var v interface{}; return errClass(sonic.Unmarshal([]byte(in), &v)) }))
+	// positions where the JIT decoder skips or captures a value instead of decoding it
+	add("eunk", embedded(`{"zz":`+in+`,"a":1}`, new(tStruct)))                // unknown struct field
+	add("eraw", embedded(`{"a":1,"b":`+in+`}`, new(tStruct)))                 // json.RawMessage field
+	add("enode", embedded(`{"c":`+in+`,"a":1}`, new(tStruct)))                // ast.Node field (json.Unmarshaler)
+	add("emis", embedded(`{"key":`+in+`,"a":1}`, new(tStruct)))               // string field: mismatching values are skipped
+	add("emap", embedded(`{"k":`+in+`}`, new(map[string]json.RawMessage)))    // map values of RawMessage
+	add("eumap", embedded(`{"k":`+in+`,"j":`+in+`}`, new(map[string]capT)))   // map values of a json.Unmarshaler
+	add("eslice", embedded(`[`+in+`,`+in+`]`, new([]json.RawMessage)))        // slice elements of RawMessage
+	add("ucap", guard(func() string { var v capT; return errClass(sonic.UnmarshalString(in, &v)) }))
 	add("dec", guard(func() string {
 		var v interface{}
 		d := decoder.NewDecoder(in)
